@@ -221,8 +221,8 @@ def transitions(chk, prog):
             continue
         if slot[0] != AW:
             if writes:
-                chk.fail('R4', 'slot=%s' % slot[0], fn_loc(fcp),
-                         'a response for a slot that is not Awaited (%s) modifies %s' % (slot[0], [w_[0] for w_ in writes]),
+                chk.fail('R4', 'slot=%s' % (slot[0],), fn_loc(fcp),
+                         'a response for a slot that is not Awaited (%s) modifies %s: duplicates and responses naming unsent / skipped / failed slots must leave everything unchanged' % ((slot[0],), [w_[0] for w_ in writes]),
                          key='R4|write-on-non-awaited|' + ','.join(sorted({w_[0] for w_ in writes})))
             else:
                 chk.ok('R4', 'slot=%s:nowrite' % (slot[0],), 'no state change')
